@@ -313,7 +313,7 @@ impl Snap {
             modes: s.mode.iter().cloned().collect(),
             tabs: s.tabstops.iter().cloned().collect(),
             dirty: s.dirty.iter().cloned().collect(),
-            margins: s.margins.map(|m| (m.top, m.bottom)),
+            margins: s.margins.as_ref().map(|m| (m.top, m.bottom)),
             title: s.title.clone(),
             icon: s.icon_name.clone(),
             g1_active: s.charset == Charset::G1,
